@@ -136,7 +136,9 @@ class SYS(Prop):
             "database is asked the same filters directly (the SQLite child's answer, taken as given, checked against the "
             "relational model); after an EVENT the harness waits for the background inserter (its log line per batch, the "
             "two-entry LRU predicted) and lists the cache; a session ends with a REQ/EVENT pair that flushes the router "
-            "child's FIFO queue (the harness waits for that event's live copy).  The interleaving of the three children is the Go scheduler's; "
+            "child's FIFO queue (the harness reads until every live copy of that event has come: one per open subscription it "
+            "matches, the session's own subscriptions included; the number only tells the harness how long to read, what was "
+            "owed is judged from the requests).  The interleaving of the three children is the Go scheduler's; "
             "the judge searches for a schedule of the composed model that yields the observed sequence (late live events "
             "may arrive in a later window) and, independently, checks the SYS_ statements on the observation.  "
             "Non-trivial: a session with a rejected (duplicate) OK, a REQ answered with at least one event, and a live "
@@ -150,7 +152,8 @@ class SYS(Prop):
         "SQLite, mattn/go-sqlite3, database/sql, goqu: as C06/C16 (relational model validated by correspondence); the SQLite "
         "child's answer to a REQ is observed by a second identical query on the quiet database",
         "quiescence protocol of harness/cmd/sys/sys.go: COUNT sentinel per message, inserter log counting with a mirrored "
-        "two-entry LRU, a marker event that flushes the router child's queue at the end of a session",
+        "two-entry LRU, a marker event that flushes the router child's queue at the end of a session (the harness reads "
+        "until all its live copies have arrived, with a 3 s fallback)",
     ]
     assumptions = [
         "one connection; client messages are fed one at a time (pipelined requests are covered by the theorems, which "
